@@ -29,6 +29,23 @@ Theorem C19_gc_invisible : forall lo ops, valid lo ops ->
 Proof. exact gc_invisible. Qed.
 Print Assumptions C19_gc_invisible.
 
+(* "Entries of idle addresses are forgotten": right after a collection pass at
+   time t the table holds exactly the addresses whose last arrival l satisfies
+   t - l <= garbageCollectTime (1 s), each with lastTime = l; and the model's
+   len(table) counts exactly those entries. *)
+Theorem C19_idle_entries_forgotten : forall lo h t a, valid lo (h ++ [Gc t]) ->
+  let s := final (step true) empty (h ++ [Gc t]) in
+  (forall e, tbl s a = Some e -> last_arr a h None = Some (e_last e) /\ t - e_last e <= gcTime) /\
+  (tbl s a = None -> match last_arr a h None with Some l => gcTime < t - l | None => True end).
+Proof. exact idle_entries_forgotten. Qed.
+Print Assumptions C19_idle_entries_forgotten.
+
+Theorem C19_table_len : forall gc ops,
+  let s := final (step gc) empty ops in
+  NoDup (keys s) /\ forall a, In a (keys s) <-> tbl s a <> None.
+Proof. exact keys_table. Qed.
+Print Assumptions C19_table_len.
+
 (* "independently of what other addresses send" *)
 Theorem C19_per_address_independent : forall gc ops a,
   decs_of a (arrivals ops (outs (step gc) empty ops)) = decs (outs (step gc) empty (proj a ops)).
